@@ -14,6 +14,7 @@ import (
 	"fmt"
 	"io"
 	"os"
+	"path/filepath"
 	"runtime"
 	"strconv"
 	"strings"
@@ -123,6 +124,7 @@ type c20Obs struct {
 	Suppressed bool   `json:"suppressed"`
 	Ret        int64  `json:"ret"`
 	Note       string `json:"note,omitempty"`
+	File       int    `json:"file,omitempty"`      // writer runs: what a reader of the progress file sees (0 old, w+1 writer w, 99 bad)
 	Done0      bool   `json:"done0,omitempty"`     // atomic-step runs: the first retirement's done channel is closed
 	GenClosed0 bool   `json:"genclosed0,omitempty"` // ... and its old generation's Close() has returned
 }
@@ -723,8 +725,30 @@ func c20RunMicro(cs c20MicroCase) (res c20MicroResult) {
 		return c20Obs{Pending: m.reloadPending.Load(), Active: m.reloadActive.Load(), Reloading: m.reloading.Load(),
 			Supp: supp, Qlen: len(m.reloadReqs), Code: c20CodeName(code), Msg: msg}
 	}
+	// writer runs: goroutines in the real writeSignalProgressBytesFile on one path in a private directory
+	var wpath string
+	var wpayloads [][]byte
+	oldRecord := encodeSignalProgress(consts.ReloadDone, "previous answer")
+	readerSees := func() int {
+		b, err := os.ReadFile(wpath)
+		if err != nil {
+			return 99
+		}
+		if string(b) == string(oldRecord) {
+			return 0
+		}
+		for w, p := range wpayloads {
+			if string(b) == string(p) {
+				return w + 1
+			}
+		}
+		return 99
+	}
 	observeMicro := func() c20Obs {
 		o := observe()
+		if wpath != "" {
+			o.File = readerSees()
+		}
 		if firstDone == nil && m.mu.TryLock() { // the parked holder may be inside the critical section
 			firstDone = m.pendingRetirementDone
 			m.mu.Unlock()
@@ -751,6 +775,29 @@ func c20RunMicro(cs c20MicroCase) (res c20MicroResult) {
 			start(th, func() int64 {
 				if m.queueReloadRequest(log, reloadRequest{isSuspend: susp, requestedAt: time.Now()}) {
 					return 1
+				}
+				return 0
+			})
+		case "writer":
+			if wpath == "" {
+				dir, err := os.MkdirTemp("", "verif-c20-progress-")
+				if err != nil {
+					panic(err)
+				}
+				defer os.RemoveAll(dir)
+				wpath = filepath.Join(dir, "dae.progress")
+				if err := os.WriteFile(wpath, oldRecord, 0644); err != nil {
+					panic(err)
+				}
+			}
+			w := len(wpayloads)
+			// records of clearly different lengths, so that a splice cannot look like a record
+			payload := encodeSignalProgress(byte(consts.ReloadProcessing+w), strings.Repeat(string(rune('a'+w)), 8*(w+1)))
+			wpayloads = append(wpayloads, payload)
+			path := wpath
+			start(th, func() int64 {
+				if err := writeSignalProgressBytesFile(path, payload); err != nil {
+					return 5
 				}
 				return 0
 			})
